@@ -8,7 +8,7 @@ PROPS=${@:-C01 C02 C03 C04 C05 C06 C07 C08 C09 C10 C11 C12 C13 C14 C15 C16 C17}
 for p in $PROPS; do ./check $p --dev 2>&1 | tail -1; done
 BIN=$(rustc +nightly --print sysroot)/lib/rustlib/x86_64-unknown-linux-gnu/bin
 $BIN/llvm-profdata merge -sparse build/cov/*.profraw -o build/cov/all.profdata
-OBJS=""; for b in build/target-cov-*/debug/verif-harness; do OBJS="$OBJS -object $b"; done
+OBJS=""; for b in build/target-cov-*/debug/verif-harness; do if [ -z "$OBJS" ]; then OBJS="$b"; else OBJS="$OBJS -object $b"; fi; done
 $BIN/llvm-cov report $OBJS -instr-profile=build/cov/all.profdata /repo/embedded-cli/src > build/cov/report.txt 2>/dev/null
 $BIN/llvm-cov show $OBJS -instr-profile=build/cov/all.profdata /repo/embedded-cli/src -show-line-counts-or-regions 2>/dev/null > build/cov/show.txt
 python3 - <<'PY'
